@@ -8,6 +8,8 @@ open Ldk.OutboundPay
           finalize <id> <part> | fail <id> <part> <auto01> <perm01> | abandon <id> <reason> |
           retry <id> <parts> <now01> | sweep <autoIds> | tick | insert <id> <part> | handle | persist | restore |
           restart <id:part:res,...>   (res = p | c | f<auto01><perm01>) | list |
+          seq <op> ; <op> ; ...   (several ops, one answer: what they pushed in order) |
+          recent   (`ChannelManager::list_recent_payments`: `ID:Pending|Fulfilled|Abandoned|AwaitingInvoice`) |
           check <id=parts;id=x;...> <autoIds>   (check_retry_payments: observed router calls, then the retain)
     `<parts>`/`<autoIds>` = comma separated naturals or `-`.
     answer:  `ok|dup|panic` followed by the pushed events (`sent:ID failed:ID:Reason pathok:ID:PART pathfail:ID:PART`),
@@ -108,6 +110,24 @@ def parseOp (ws : List String) : Option (List Op) :=
   | ["check", items, autos] => some (parseCheck items ++ [.sweep (csvNats autos)])
   | _ => none
 
+def splitSemi (ws : List String) : List (List String) :=
+  let (cur, acc) := ws.foldl (fun (st : List String × List (List String)) w =>
+    if w == ";" then ([], st.2 ++ [st.1]) else (st.1 ++ [w], st.2)) ([], [])
+  (acc ++ [cur]).filter (· ≠ [])
+
+def parseSeq (ws : List String) : Option (List Op) :=
+  (splitSemi ws).foldl (fun acc sub => match acc, parseOp sub with
+    | some a, some b => some (a ++ b)
+    | _, _ => none) (some [])
+
+def showRecent (e : PayId × PState) : Option String :=
+  match e.2 with
+  | .absent => none
+  | .preHtlc _ => some s!"{e.1}:AwaitingInvoice"
+  | .retryable _ => some s!"{e.1}:Pending"
+  | .fulfilled _ _ => some s!"{e.1}:Fulfilled"
+  | .abandoned _ _ => some s!"{e.1}:Abandoned"
+
 def c03 : Drv where
   σ := State
   init := OutboundPay.init
@@ -115,6 +135,11 @@ def c03 : Drv where
     match ws with
     | ["reset"] => (OutboundPay.init, "ok")
     | ["list"] => (st, String.intercalate " " ("list" :: (sortEntries st.cur).filterMap showEntry))
+    | ["recent"] => (st, String.intercalate " " ("recent" :: (sortEntries st.cur).filterMap showRecent))
+    | "seq" :: rest =>
+      match parseSeq rest with
+      | some ops => let r := runOps st ops; (r.1, showOut r.2)
+      | none => (st, "bad-op")
     | _ =>
       match parseOp ws with
       | some ops => let r := runOps st ops; (r.1, showOut r.2)
